@@ -96,6 +96,12 @@ func (m *FlowMon) OnEvent(c *eng.Ctx, ms eng.MState, ev *eng.Event) eng.MState {
 	switch ev.Kind {
 	case "store", "mapupdate", "mapdelete", "append", "clear", "send", "go":
 		chk("C03.R6", "effect", false, "running a flow writes "+ev.Kind+" on "+descAddr(ev)+": the walk must keep no state between (or during) runs")
+	case "lookup":
+		// the node's row of the connection table is read: it has to be read after the node ran
+		// (a node may connect itself while it runs; "most recently connected" includes that)
+		if ev.Addr == T {
+			s.sawLookup = true
+		}
 	case "branch":
 		if ev.Decided || s.n == 0 {
 			break
@@ -132,6 +138,7 @@ func (m *FlowMon) OnEvent(c *eng.Ctx, ms eng.MState, ev *eng.Event) eng.MState {
 			} else {
 				want := eng.Lookup(eng.Lookup(T, s.prevNode), s.prevAct)
 				chk("C03.R2", "child-run", node == want, "the next node run is "+node.Pretty()+"; the table prescribes "+want.Pretty())
+				chk("C03.R2", "child-run", s.sawLookup, "the successor comes from a row of the connection table that was read before the previous node ran: a connection the node makes while it runs is missed")
 				chk("C04.R4", "child-run", knownNil(c, s.prevErr), "a further node is run although the previous node's run is not known to have succeeded")
 			}
 			chk("C03.R2", "child-run", c.IsNil(node) == eng.TriFalse, "Run is invoked on a node that may be nil (a connection to nil must end the flow)")
@@ -152,6 +159,7 @@ func (m *FlowMon) OnEvent(c *eng.Ctx, ms eng.MState, ev *eng.Event) eng.MState {
 			}
 			s.prevAct, s.prevErr = ev.Results[0], ev.Results[1]
 			s.obs, s.cut = nil, false
+			s.sawLookup = false
 		default:
 			if m.hookCall(s, ev, T) {
 				// an optional function-typed field of the flow (observer / hook) called with nodes of the
@@ -294,6 +302,7 @@ func (m *FlowMon) onReturn(c *eng.Ctx, s flowState, ev *eng.Event, T *eng.Term) 
 				c.IsNil(inner) == eng.TriTrue || c.IsNil(next) == eng.TriTrue
 		}
 		ck("C03.R3", "success-return", ended, "the flow ends although the connection table may hold a non-nil successor for (last node, its action)")
+		ck("C03.R3", "success-return", s.n == 0 || s.sawLookup, "the flow ends on a row of the connection table that was read before the last node ran: a connection the node makes while it runs is missed")
 		okVal := val.K == eng.KBox && m.R.Action != nil && types.Identical(val.T, m.R.Action) && val.A[0] == s.prevAct
 		ck("C10.R3,C03.R9", "success-return", okVal, "a finished flow must hand back the action of the last node it ran (boxed as Action), got "+val.Pretty())
 	case eng.TriFalse:
@@ -301,7 +310,7 @@ func (m *FlowMon) onReturn(c *eng.Ctx, s flowState, ev *eng.Event, T *eng.Term) 
 		case s.n > 0 && knownNonNil(c, s.prevErr):
 			// a failed node's error is what the flow reports, whether or not the context was seen
 			// cancelled afterwards
-			ck("C04.R4", "error-return", err.Unwraps(s.prevErr), "the flow's error "+err.Pretty()+" does not wrap the failing node's error "+s.prevErr.Pretty())
+			ck("C04.R4,C05.R4", "error-return", err.Unwraps(s.prevErr), "the flow's error "+err.Pretty()+" does not wrap the failing node's error "+s.prevErr.Pretty()+" (a node cut short by cancellation fails with an error matching the context's: the flow has to keep that chain)")
 		case s.cutAny:
 			found := false
 			for _, l := range err.WrapLeaves() {
